@@ -65,10 +65,11 @@ Definition spec_stream (t : strace) : Prop :=
   let e := evs t in
   (* order, no duplicate, nothing invented *)
   (forall c, In c (recv_chans e ++ handed_out e) -> prefix_of (received_on c e) (emitted_on c e)) /\
-  (* the service ended the stream and the client stayed: everything, then the normal close *)
+  (* the service ended the stream and the client stayed: everything, and the normal
+     close is the last frame the client reads *)
   (left_in e = false -> service_ended e = true ->
      (forall c, In c (handed_out e) -> Permutation (received_on c e) (emitted_on c e)) /\
-     got_normal_close e = true) /\
+     normal_close_last e = true) /\
   (* the client left first: every request is told to stop *)
   (client_left_first e = true -> forall k, k < length (handed_out e) -> stop_seen k e = true) /\
   (* the session's first request reached the service *)
